@@ -241,6 +241,23 @@ func (fr *Frame) record(name string, v Val, addr bool) {
 
 func (fr *Frame) resolveAt(name string, b *ssa.BasicBlock, idx int, st *State, phiMap map[*ssa.Phi]Val) (Val, bool) {
 	e := fr.e
+	// a variable that lives in a cell (address taken, captured): its value is the cell's current content, not the
+	// result of some earlier load
+	for _, blk := range fr.fn.Blocks {
+		if blk != b && !blk.Dominates(b) {
+			continue
+		}
+		for k, in := range blk.Instrs {
+			al, ok := in.(*ssa.Alloc)
+			if !ok || al.Comment != name || (blk == b && k >= idx && idx >= 0) {
+				continue
+			}
+			if v, done := fr.vals[al]; done {
+				pt := al.Type().Underlying().(*types.Pointer).Elem()
+				return Val{T: e.loadAt(st, v.T, v.Src, pt), Ty: pt}, true
+			}
+		}
+	}
 	sites := fr.sites[name]
 	for i := len(sites) - 1; i >= 0; i-- {
 		s := sites[i]
@@ -702,6 +719,9 @@ func (fr *Frame) exec(reach string, st *State) (string, *State, []Val) {
 	// every call-site clause must have found its call: a clause that matches nothing checks nothing
 	if fr.spec != nil {
 		for _, c := range append(append([]*Clause{}, fr.spec.Asserts...), fr.spec.Assumes...) {
+			if strings.HasPrefix(c.Key, "return#") && !fr.matched[c] {
+				e.unsupported = append(e.unsupported, fmt.Sprintf("%s: %s %q [%s] matches no reachable return statement (%s:%d)", fr.prefix, c.Kind, c.Key, labelOr(c), c.File, c.Line))
+			}
 			if strings.HasPrefix(c.Key, "call ") && !fr.matched[c] {
 				e.unsupported = append(e.unsupported, fmt.Sprintf("%s: %s %q [%s] matches no call site (%s:%d)", fr.prefix, c.Kind, c.Key, labelOr(c), c.File, c.Line))
 			}
@@ -1195,10 +1215,15 @@ func (fr *Frame) atReturn(vs []Val) {
 		if strings.HasPrefix(c.Key, "return#") {
 			want := 0
 			fmt.Sscanf(strings.TrimPrefix(c.Key, "return#"), "%d", &want)
-			if want != fr.returnOrdinal() {
+			ord, total := fr.returnOrdinal2()
+			if want < 0 {
+				want = total + want + 1
+			}
+			if want != ord {
 				continue
 			}
 		}
+		fr.matched[c] = true
 		env := fr.envAt(fr.block, fr.idx, fr.cur.st, nil)
 		fr.bindResults(env, vs)
 		t, err := env.Goal(c.Expr)
@@ -2225,6 +2250,50 @@ func (e *Engine) sliceStaysLocal(v ssa.Value) bool {
 // 1-based ordinal of the current Return instruction among the function's returns, in source order
 // (negative numbers count from the end: return#-1 is the last return statement)
 func (fr *Frame) returnOrdinal() int {
+	o, _ := fr.returnOrdinal2()
+	return o
+}
+
+// ordinal of the current return and the number of source-level return statements (the synthetic return of a
+// recover block has no position and is not counted)
+func (fr *Frame) returnOrdinal2() (int, int) {
+	if fr.block == nil || fr.idx < 0 {
+		return 0, 0
+	}
+	cur := fr.block.Instrs[fr.idx]
+	type rp struct {
+		in  ssa.Instruction
+		pos token.Pos
+		seq int
+	}
+	var all []rp
+	seq := 0
+	for _, b := range fr.fn.Blocks {
+		if b == fr.fn.Recover {
+			continue
+		}
+		for _, in := range b.Instrs {
+			if _, ok := in.(*ssa.Return); ok {
+				seq++
+				all = append(all, rp{in, in.Pos(), seq})
+			}
+		}
+	}
+	sort.SliceStable(all, func(i, j int) bool {
+		if all[i].pos != all[j].pos {
+			return all[i].pos < all[j].pos
+		}
+		return all[i].seq < all[j].seq
+	})
+	for i, r := range all {
+		if r.in == cur {
+			return i + 1, len(all)
+		}
+	}
+	return 0, len(all)
+}
+
+func (fr *Frame) returnOrdinalOld() int {
 	if fr.block == nil || fr.idx < 0 {
 		return 0
 	}
@@ -2285,6 +2354,11 @@ func (fr *Frame) noteResult(cc *ssa.CallCommon, res Val) {
 			names = append(names, x.Name())
 		case *ssa.Alloc:
 			names = append(names, x.Comment)
+		}
+		if n := dynCallName(cc); n != "dynamic" {
+			if i := strings.LastIndex(n, "."); i >= 0 {
+				names = append(names, n[i+1:])
+			}
 		}
 	}
 	for _, n := range names {
